@@ -1131,8 +1131,14 @@ def replay_graph(run, cfg, seed, tag, limit=None, procs=8, timeout=600):
     try:
         out = os.path.join(d, "table.ndjson")
         r = tlc.run_tlc("MC_LCDSearch", cfg, env={"OUTFILE": out}, workers=8, timeout=timeout,
-                        dump=os.path.join(d, "graph"))
+                        dump=os.path.join(d, "graph"), coverage=True)
         run.add_mc(r, cfg + " (graph dumped for replay)")
+        # self-test of the model: no action of the state machine is vacuous in this run
+        need = ["StartAll", "Workers", "Check", "Sleep", "JoinAll", "Copy", "PostProcess"] + (
+            ["Deadline", "Kill"] if "c19" in cfg else [])
+        dead = [a for a in need if r.coverage.get(a, (0, 0))[1] == 0]
+        if dead:
+            raise tlc.TLCError("actions never taken in %s: %s (coverage %r)" % (cfg, dead, r.coverage))
         rows = {(x["fam"], x["n"]): x for x in tlc.read_emitted(out)}
         states, edges, inits = load_dot(os.path.join(d, "graph.dot"))
     finally:
@@ -1403,13 +1409,22 @@ LCD_WARNING = "WARNING: LCD analysis timed out"
 
 def padded_file(src, dst, comment, total):
     """copy of a shipped kernel file with comment lines inserted at the end of the marked section
-    (before the OSACA-END marker) so that the kernel has `total` lines"""
+    (before the OSACA-END comment / the `mov ..., 222` byte marker) so that the kernel has `total` lines"""
+    import re
+
     with open(src) as f:
         lines = f.read().rstrip("\n").split("\n")
-    end = [i for i, l in enumerate(lines) if "OSACA-END" in l]
-    begin = [i for i, l in enumerate(lines) if "OSACA-BEGIN" in l]
+    is_end = lambda l: "OSACA-END" in l or re.search(r"mov\w*\s.*[#$]222\b", l)
+    is_begin = lambda l: "OSACA-BEGIN" in l or re.search(r"mov\w*\s.*[#$]111\b", l)
+    end = [i for i, l in enumerate(lines) if is_end(l)]
+    begin = [i for i, l in enumerate(lines) if is_begin(l)]
     at = end[0] if end else len(lines)
-    n0 = len([l for l in lines[(begin[0] + 1 if begin else 0):at] if l.strip()])
+    first = 0
+    if begin:
+        first = begin[0] + 1
+        if first < len(lines) and ".byte" in lines[first]:
+            first += 1
+    n0 = len([l for l in lines[first:at] if l.strip()])
     pads = ["%s pad %d" % (comment, i) for i in range(max(0, total - n0))]
     with open(dst, "w") as f:
         f.write("\n".join(lines[:at] + pads + lines[at:]) + "\n")
